@@ -469,7 +469,10 @@ class ScaledInteger(HasUnit, DataType):
     def import_value(self, value):
         """returns a python object from serialisation"""
         try:
-            return self.scale * int(value)
+            intvalue = int(value)
+            if isinstance(value, str) or intvalue != value:
+                raise ValueError('not an integer')
+            return self.scale * intvalue
         except Exception:
             raise WrongTypeError(f'can not import {shortrepr(value)} to scaled') from None
 
